@@ -74,7 +74,14 @@ inline void note(int code, long long a = 0, long long b = 0) {
 inline bool grant(int tid) {
     LThread* t = threads[tid];
     if (t->finished) return false;
-    if (!t->started) { t->started = true; pthread_create(&t->th, nullptr, trampoline, t); }
+    if (!t->started) {
+        t->started = true;
+        // detached: a joinable thread that is never joined keeps its stack mapped; tens of thousands of cases in one process
+        // would exhaust the address space and pthread_create would fail silently (the controller then waits for ever)
+        int rc = pthread_create(&t->th, nullptr, trampoline, t);
+        if (rc != 0) { std::fprintf(stderr, "gate: pthread_create failed (%d)\n", rc); std::fflush(stderr); std::_Exit(97); }
+        pthread_detach(t->th);
+    }
     sem_post(&t->go);
     sem_wait(&back);
     return true;
